@@ -113,7 +113,8 @@ class Monitor:
             self.req(not (write_ics and write_adj), "C03.kind")
             if write_adj and not write_ics:
                 self.req(e1 - n0 == 1, "C03.kind")
-            kind = "ics" if write_ics else "adj"
+            # what the checkpoint holds is what the flags say (both, if both are set)
+            kind = "both" if (write_ics and write_adj) else ("ics" if write_ics else "adj")
             self._store_ckpt(storage, n0, kind, n0, e1)
             if storage == DISK:
                 self.disk_writes += 1
@@ -151,14 +152,20 @@ class Monitor:
             # loaded only when working storage holds nothing pending
             self.req(self.work_ics is None and self.work_adj is None, "C12.load_into_busy_work")
             self.req(n < N - self.r, "C01.ckpt_covers")
-            if kind == "ics":
+            if kind in ("ics", "both"):
                 self.fwd = n
                 self.work_ics = (lo, hi)
                 # restart data must cover the steps still to be recomputed
                 self.req(hi >= N - self.r, "C01.ckpt_covers")
             else:
                 self.fwd = None
+            if kind in ("adj", "both"):
                 self.work_adj = (lo, hi)
+                if not self.keeps_all_adj:
+                    # working storage never holds adjoint data of more than one step,
+                    # and only of the step just before the adjoint position
+                    self.req(hi - lo <= 1, "C12.adj_single_step")
+                    self.req(self.work_ics is None, "C12.work_one_thing")
             if src == DISK:
                 self.disk_loads += 1
             else:
